@@ -37,7 +37,7 @@ def recipe(c: Check):
     cnt = c.cov.get("coq_counters", {}).get("config", {})
     if st is not None and cnt:
         for name, least in (("NROUNDOK", 100), ("NDOMAINBELONGS", 5), ("NDOMAINCASEONLY", 2), ("NINVALID", 50), ("NUNKNOWNTYPE", 5),
-                            ("NTEMPLATEOK", 30)):
+                            ("NTEMPLATEOK", 30), ("NTLSFLAGON", 6)):
             if cnt.get(name, 0) < least:
                 c.broken.append(dict(kind="coverage", name="counter %s = %s < %s: the generator no longer reaches a branch the property names"
                                      % (name, cnt.get(name, 0), least), detail=""))
